@@ -158,3 +158,8 @@ pub broadcast proof fn axiom_str_bytes_ascii(s: Seq<char>)
 pub fn v_str_as_bytes(s: &str) -> (r: &[u8])
     ensures r@ == str_bytes(s@)
 { s.as_bytes() }
+
+// --- rule R10: Display-based to_string of an error value (diagnostic text; value unconstrained)
+#[verifier::external_body]
+pub fn v_to_string<T>(t: &T) -> (r: String)
+{ unimplemented!() }
